@@ -66,7 +66,7 @@ def run(repo, rep):
     from ..codec_rules import check_wire
     from ..layout import LayoutExtractor
     check_wire(LayoutExtractor(repo), rep, prefix='C14', only=('AAssociateRjPDU', 'AAbortPDU'),
-               rule_map={'L1': 'J6', 'L2': 'J6', 'L3': 'J6', 'L5': 'J6'})
+               rule_map={'L1': 'J6', 'L2': 'J6', 'L3': 'J6', 'L5': 'J6', 'L6': 'J6'})
     from ..provider_model import ProviderModel
     from ..fsm_model import FsmModel
     from .c03 import buffer_anchor, drain_order_problems
